@@ -20,10 +20,10 @@ ASSUMPTIONS = _x1.X1_ASSUMPTIONS + ["an update's callbacks run atomically at a l
 PUT = [("put", "sig", 7), ("@once", "put", "pause", "suspend")]  # each kind at most once per schedule
 INT = [("pause",), ("suspend", "none")]
 SPECS = {
-    "quick": [spec("monitor2", INT, bound=1), spec("monitor1", PUT, bound=1), spec("monitor1short", PUT + INT, bound=2), spec("monitorpp", [("put", "sig", 7), ("suspend", "none")], bound=1)]
+    "quick": [spec("monitor2", INT, bound=1), spec("monitor1", PUT, bound=1), spec("monitor1short", PUT + INT, bound=2), spec("monitorpp", [("put", "sig", 7), ("suspend", "none")], bound=1), spec("monitorpp", [("put", "sig", 7), ("suspend", "none")], bound=1, late=1)]
     # updates written by a document consumer WHILE a start / descriptor / event / stop document is being dispatched
     + [spec("monitordoc", INT, bound=1, on=on, um=um) for on in ("start", "descriptor", "event", "stop") for um in (0, 1)],
-    "thorough": [spec("monitor2", INT, bound=2), spec("monitor2", INT, bound=1, a=1), spec("monitor1", PUT + INT, bound=2), spec("monitor1short", PUT + INT, bound=3), spec("monitor1short", PUT + INT, bound=2, a=1)]
+    "thorough": [spec("monitor2", INT, bound=2), spec("monitor2", INT, bound=1, a=1), spec("monitor1", PUT + INT, bound=2), spec("monitor1short", PUT + INT, bound=3), spec("monitor1short", PUT + INT, bound=2, a=1), spec("monitorpp", PUT + INT, bound=2, late=1)]
     + [spec("monitordoc", INT + [("abort",), ("stop",)], bound=2, on=on, um=um, a=a) for on in ("start", "descriptor", "event", "stop") for um in (0, 1) for a in (0, 1)],
 }
 
